@@ -16,6 +16,7 @@ import (
 	"path/filepath"
 	"reflect"
 	"runtime"
+	"runtime/debug"
 	"sort"
 	"strings"
 	"sync"
@@ -399,6 +400,9 @@ func resultEv(ret []byte, left uint64, err error, panicked string, st *state.Sta
 	if panicked != "" {
 		e.Err = "PANIC: " + panicked
 	}
+	// the refund counter first: IntermediateRoot finalises the state, which clears it
+	e.Cost = clamp(st.GetRefund())
+	e.CostX = fmt.Sprint(st.GetRefund())
 	root := st.IntermediateRoot(eip158)
 	e.MemH = hex.EncodeToString(root[:8])
 	var lb []byte
@@ -411,8 +415,6 @@ func resultEv(ret []byte, left uint64, err error, panicked string, st *state.Sta
 		lb = append(lb, 0xff)
 	}
 	e.RdH = sh(lb)
-	e.Cost = clamp(st.GetRefund())
-	e.CostX = fmt.Sprint(st.GetRefund())
 	return e
 }
 
@@ -484,6 +486,9 @@ func runArtela(p *gen.Program, o runOpts) (out runOut) {
 		defer func() {
 			if r := recover(); r != nil {
 				panicked = fmt.Sprint(r)
+				if os.Getenv("VERIF_DEBUG_PANIC") != "" {
+					fmt.Fprintf(os.Stderr, "PANIC %s entry=%s\n%s\n", panicked, p.Entry, debug.Stack())
+				}
 			}
 		}()
 		ctx := e.Ctx
@@ -862,6 +867,11 @@ func traceCmd(args []string) int {
 				mu.Unlock()
 				written := 0
 				withTracers := *tracersEvery > 0 && (j.i%*tracersEvery == 0 || strings.HasPrefix(p.Name, "nest:"))
+				if p.Entry != "call" && p.Entry != "create" && p.Entry != "create2" {
+					// CallCode/DelegateCall/StaticCall as entry points announce themselves with CaptureEnter only: the inherited tracers
+					// (in both code bases) expect a CaptureStart first and dereference nil without it - a host error, not an execution
+					withTracers = false
+				}
 				type variant struct {
 					cfg string
 					o   runOpts
@@ -939,7 +949,7 @@ func traceCmd(args []string) int {
 	k := 0
 	for i, p := range progs {
 		// each program runs on one fork (rotating), every 7th on all
-		if i%7 == 0 {
+		if i%7 == 0 || p.AllForks {
 			for _, f := range forks {
 				jobs <- job{k, p, f}
 				k++
